@@ -105,6 +105,14 @@ def interesting(tier):
         out.append((f"SEQUENCE OF {il}", lambda inn=inn: Ty('seqof', elem=inn()), ['req', 'optional'], None))
         out.append((f"SET OF {il}", lambda inn=inn: Ty('setof', elem=inn()), ['req', 'optional'], None))
     out.append(('anon ENUMERATED', lambda: Ty('enum', items=['one', 'two', 'three']), ['req', 'optional'], None))
+    # collections of collections of an anonymous constructed type (the innermost type still needs an item of its own)
+    deep = [('anon seq', lambda: Ty('seq', members=[Mem('u', P('BOOLEAN')), Mem('w', P('INTEGER'), 'optional')])), ('anon enum', lambda: Ty('enum', items=['on', 'off'])),
+            ('anon choice', lambda: Ty('choice', members=[Mem('u', P('NULL')), Mem('v', P('BOOLEAN'))])), ('ref R', lambda: R('R'))]
+    for il, inn in deep:
+        out.append((f"SEQUENCE OF SEQUENCE OF {il}", lambda inn=inn: Ty('seqof', elem=Ty('seqof', elem=inn())), ['req', 'optional'], None))
+        out.append((f"SET OF SEQUENCE OF {il}", lambda inn=inn: Ty('setof', elem=Ty('seqof', elem=inn())), ['req'], None))
+        if tier != 'quick':
+            out.append((f"SEQUENCE OF SET OF SET OF {il}", lambda inn=inn: Ty('seqof', elem=Ty('setof', elem=Ty('setof', elem=inn()))), ['req', 'optional'], None))
     return out
 
 
@@ -349,6 +357,9 @@ class Matcher:
                         self.match_named(nm, e, where + '[]')
                     else:
                         self.fail('type', f"{where}: element type {es}, expected {want}")
+            elif e.kind in ('seqof', 'setof') and not (len(inner) == 1 and isinstance(inner[0], TIdent)):
+                # a collection of a collection may be written inline: SequenceOf<SequenceOf<..>>
+                self.match_type(inner, e, owner, where + '[]', allow_hoist=True, boxed=True)
             else:
                 if len(inner) == 1 and isinstance(inner[0], TIdent):
                     nm = idname(inner[0])
